@@ -151,5 +151,6 @@ OpVerdict(r) ==
     ELSE IF irr /\ c.fam = "real" THEN "irrational-under-real"
     ELSE IF \E e \in exps : \E v \in e.vals : Same(v, Canon(r.out.val)) THEN "ok"
     ELSE IF \A e \in exps : e.vals = {} THEN "missing-error"
+    ELSE IF \E e \in exps : \E v \in e.vals : SameVal(v, Canon(r.out.val)) THEN "value-zero-sign"
     ELSE "value"
 =============================================================================
